@@ -3,6 +3,7 @@ CONSTANTS
   Kind = "@@KIND@@"
   Norm = @@NORM@@
   Spellings <- MCSpellings
+  Typed <- MCTyped
   MaxH = @@MAXH@@
 INVARIANT Inv
 PROPERTY FrameProp
